@@ -1,6 +1,7 @@
 import Gzx.Model.DMHighLevel
 import Gzx.Gen.C02DM
 import Gzx.Gen.DMSymbols
+import Gzx.Model.DMDecodeChain
 namespace Gzx.Driver.C02
 open Gzx Gzx.DMHighLevel
 
@@ -23,7 +24,12 @@ def parseDim (s : String) : Option (Option (Nat × Nat)) :=
 /-- line-protocol handler of suite `c02` (arguments after the suite name)
     * `dec <hex codewords>`                       → `<hex text>|m=<symbology modifier>` or `ERR:kind`
     * `enc <hex text> <shape> <min WxH|-> <max>`  → `<hex codewords>` or `ERR:kind`
-    * `la <hex text> <pos> <mode>`                → mode -/
+    * `symdec <rows/of/bits>`                     → `<hex text>` or `ERR:kind`: Decoder.Decode (model `DMDec.decodeMatrix`)
+    * `la <hex text> <pos> <mode>`                → mode (Lean `Float` look-ahead)
+    * `lax <hex text> <pos> <mode>`               → mode (exact integer look-ahead `laExact`)
+    * `laxr <hex text> <pos> <mode> <bumps>`      → mode (`laExactR` with the float roundings observed by the harness:
+                                                    one digit 0..7 per processed character, `-` = none)
+    * `encx <hex text> <shape> <min> <max>`       → like `enc`, with `laExact` as the look-ahead -/
 def handle : List String → String
   | ["dec", hex] =>
     match parseHex? hex, genTables with
@@ -41,6 +47,33 @@ def handle : List String → String
       | .error e => "ERR:" ++ e.tag
     | _, _, _, _, none => "ERR:gen-symbols"
     | _, _, _, _, _ => "bad-op"
+  | ["encx", hex, shape, mn, mx] =>
+    match parseHex? hex, shape.toNat?, parseDim mn, parseDim mx, genSymbols with
+    | some msg, some sh, some mn, some mx, some syms =>
+      match encodeHL syms laExact msg ⟨sh, mn, mx⟩ with
+      | .ok cw => showHex cw
+      | .error e => "ERR:" ++ e.tag
+    | _, _, _, _, none => "ERR:gen-symbols"
+    | _, _, _, _, _ => "bad-op"
+  | ["lax", hex, pos, mode] =>
+    match parseHex? hex, pos.toNat?, mode.toNat? with
+    | some msg, some p, some m => toString (laExact msg p m)
+    | _, _, _ => "bad-op"
+  | ["symdec", grid] =>
+    match genTables with
+    | some T =>
+      let rows := (grid.splitOn "/").map parseBits
+      let g : DMDec.BitGrid := ⟨(rows.headD []).length, rows.length, (rows.flatMap id).toArray⟩
+      match DMDec.decodeMatrix T g with
+      | .ok t => showHex t
+      | .error e => "ERR:" ++ e.tag
+    | none => "ERR:gen-tables"
+  | ["laxr", hex, pos, mode, bumps] =>
+    match parseHex? hex, pos.toNat?, mode.toNat? with
+    | some msg, some p, some m =>
+      let ds := if bumps == "-" then [] else bumps.toList.map (fun ch => ch.toNat - 48)
+      toString (laExactR (bumpOfDigits ds) msg p m)
+    | _, _, _ => "bad-op"
   | ["la", hex, pos, mode] =>
     match parseHex? hex, pos.toNat?, mode.toNat? with
     | some msg, some p, some m => toString (laFloat msg p m)
